@@ -94,7 +94,7 @@ Qed.
 Lemma awaiting_total g nw ts : tinv g nw ts -> awaiting (pcs ts) = true ->
   d_total (tm ts) = arm_total g (cfg ts) (started ts).
 Proof.
-  intros T A. assert (L : live (pcs ts) = true) by (destruct (pcs ts) as [| | | | |[|]| |]; simpl in *; congruence).
+  intros T A. assert (L : live (pcs ts) = true) by (destruct (pcs ts) as [| | | | |[|]| | |]; simpl in *; congruence).
   destruct (t_total _ _ _ T L) as [H|[H _]]; [assumption|]. rewrite H in A. discriminate.
 Qed.
 
@@ -103,8 +103,8 @@ Lemma tinv_to_headers g nw ts c :
   0 < u g -> tinv g nw ts -> connecting (pcs ts) = true -> tinv g nw (to_headers ts c nw).
 Proof.
   intros Hu T C.
-  assert (A : awaiting (pcs ts) = true) by (destruct (pcs ts) as [| | | | |[|]| |]; simpl in *; congruence).
-  assert (L : live (pcs ts) = true) by (destruct (pcs ts) as [| | | | |[|]| |]; simpl in *; congruence).
+  assert (A : awaiting (pcs ts) = true) by (destruct (pcs ts) as [| | | | |[|]| | |]; simpl in *; congruence).
+  assert (L : live (pcs ts) = true) by (destruct (pcs ts) as [| | | | |[|]| | |]; simpl in *; congruence).
   pose proof (awaiting_total _ _ _ T A) as Et. pose proof (t_wf _ _ _ T) as W.
   pose proof (t_started _ _ _ T L) as St.
   pose proof (t_urgent _ _ _ T TTotal) as Ut. simpl in Ut.
@@ -116,8 +116,8 @@ Lemma tinv_to_connect g nw ts :
   0 < u g -> tinv g nw ts -> connecting (pcs ts) = true -> pcs ts <> PConnect -> tinv g nw (to_connect g ts nw).
 Proof.
   intros Hu T C NC.
-  assert (A : awaiting (pcs ts) = true) by (destruct (pcs ts) as [| | | | |[|]| |]; simpl in *; congruence).
-  assert (L : live (pcs ts) = true) by (destruct (pcs ts) as [| | | | |[|]| |]; simpl in *; congruence).
+  assert (A : awaiting (pcs ts) = true) by (destruct (pcs ts) as [| | | | |[|]| | |]; simpl in *; congruence).
+  assert (L : live (pcs ts) = true) by (destruct (pcs ts) as [| | | | |[|]| | |]; simpl in *; congruence).
   pose proof (awaiting_total _ _ _ T A) as Et. pose proof (t_wf _ _ _ T) as W.
   pose proof (t_started _ _ _ T L) as St.
   pose proof (t_urgent _ _ _ T TTotal) as Ut. pose proof (t_urgent _ _ _ T TConn) as Uc. simpl in Ut, Uc.
@@ -132,19 +132,19 @@ Lemma tinv_set_pc_connecting g nw ts p :
   connecting p = true -> p <> PConnect -> tinv g nw (set_pc ts p).
 Proof.
   intros T C NC Cp NCp.
-  assert (A : awaiting (pcs ts) = true) by (destruct (pcs ts) as [| | | | |[|]| |]; simpl in *; congruence).
-  assert (L : live (pcs ts) = true) by (destruct (pcs ts) as [| | | | |[|]| |]; simpl in *; congruence).
-  assert (Ap : awaiting p = true) by (destruct p as [| | | | |[|]| |]; simpl in *; congruence).
-  assert (Lp : live p = true) by (destruct p as [| | | | |[|]| |]; simpl in *; congruence).
-  assert (Hp : has_conn p = false) by (destruct p as [| | | | |[|]| |]; simpl in *; congruence).
-  assert (Hts : has_conn (pcs ts) = false) by (destruct (pcs ts) as [| | | | |[|]| |]; simpl in *; congruence).
+  assert (A : awaiting (pcs ts) = true) by (destruct (pcs ts) as [| | | | |[|]| | |]; simpl in *; congruence).
+  assert (L : live (pcs ts) = true) by (destruct (pcs ts) as [| | | | |[|]| | |]; simpl in *; congruence).
+  assert (Ap : awaiting p = true) by (destruct p as [| | | | |[|]| | |]; simpl in *; congruence).
+  assert (Lp : live p = true) by (destruct p as [| | | | |[|]| | |]; simpl in *; congruence).
+  assert (Hp : has_conn p = false) by (destruct p as [| | | | |[|]| | |]; simpl in *; congruence).
+  assert (Hts : has_conn (pcs ts) = false) by (destruct (pcs ts) as [| | | | |[|]| | |]; simpl in *; congruence).
   pose proof (awaiting_total _ _ _ T A) as Et.
   pose proof (t_conn _ _ _ T) as Ec. rewrite C in Ec.
   pose proof (t_sock _ _ _ T) as Es. pose proof (t_urgent _ _ _ T) as U.
   destruct T. split; simpl; intros; auto; try congruence.
   all: try (match goal with H : _ = Some ?D |- _ <= ?D => apply (U w D); exact H end).
   all: try (rewrite ?Cp; assumption).
-  all: destruct (pcs ts) as [| | | | |[|]| |]; destruct p as [| | | | |[|]| |]; simpl in *; try congruence; auto.
+  all: destruct (pcs ts) as [| | | | |[|]| | |]; destruct p as [| | | | |[|]| | |]; simpl in *; try congruence; auto.
   all: idtac.
 Qed.
 
@@ -167,7 +167,7 @@ Proof.
 Qed.
 
 Lemma has_conn_not_connecting p : has_conn p = true -> connecting p = false.
-Proof. destruct p as [| | | | |[|]| |]; simpl; congruence. Qed.
+Proof. destruct p as [| | | | |[|]| | |]; simpl; congruence. Qed.
 
 (* updates of a request that holds a connection and keeps its total / connect timers *)
 Lemma tinv_conn_update g nw old new :
@@ -192,12 +192,12 @@ Proof.
   - rewrite Es. apply (t_started _ _ _ T Lo).
   - rewrite H in Hn. discriminate.
   - rewrite Et, Ec, Es. destruct (t_total _ _ _ T Lo) as [X|[X [Y Z]]]; [left; assumption|].
-    right. destruct (pcs new) as [| | | | |[|]| |] eqn:Pn; simpl in *; try discriminate.
+    right. destruct (pcs new) as [| | | | |[|]| | |] eqn:Pn; simpl in *; try discriminate.
     + exfalso. destruct (Haw eq_refl) as [A _]. apply Y. apply Hla. assumption.
     + exfalso. destruct (Haw eq_refl) as [A _]. apply Y. apply Hla. assumption.
     + split; [reflexivity|]. split; [|assumption]. intro A. apply Y. apply Hla. assumption.
   - rewrite Cn. assumption.
-  - rewrite Eds. destruct (pcs new) as [| | | | |[|]| |]; simpl in *; congruence.
+  - rewrite Eds. destruct (pcs new) as [| | | | |[|]| | |]; simpl in *; congruence.
 Qed.
 
 Lemma tinv_rearm g nw ts : tinv g nw ts -> has_conn (pcs ts) = true -> tinv g nw (rearm_read ts nw).
@@ -205,7 +205,7 @@ Proof.
   intros T H. pose proof (has_conn_not_connecting _ H) as C.
   pose proof (t_conn _ _ _ T) as Ec. rewrite C in Ec. pose proof (t_sock _ _ _ T) as Es.
   apply (tinv_conn_update g nw ts); simpl; auto; try lia.
-  - destruct (pcs ts) as [| | | | |[|]| |]; simpl in *; congruence.
+  - destruct (pcs ts) as [| | | | |[|]| | |]; simpl in *; congruence.
   - intros D E. eapply arm_read_ge; [apply (t_wf _ _ _ T)|eassumption].
   - apply (t_awaiting _ _ _ T).
 Qed.
@@ -215,7 +215,7 @@ Proof.
   intros T H. pose proof (has_conn_not_connecting _ H) as C.
   pose proof (t_conn _ _ _ T) as Ec. rewrite C in Ec. pose proof (t_sock _ _ _ T) as Es.
   apply (tinv_conn_update g nw ts); simpl; auto; try lia.
-  - destruct (pcs ts) as [| | | | |[|]| |]; simpl in *; congruence.
+  - destruct (pcs ts) as [| | | | |[|]| | |]; simpl in *; congruence.
   - intros D E. eapply arm_read_ge; [apply (t_wf _ _ _ T)|eassumption].
   - apply (t_awaiting _ _ _ T).
 Qed.
